@@ -34,7 +34,7 @@ type c16LexResp struct {
 	Fail int     `json:"fail"` // index of the first input violating the structural invariants, -1 if none
 	Msg  string  `json:"msg,omitempty"`
 	Toks [][]tok `json:"toks,omitempty"` // per capacity, for In[0] when Full
-	N    int     `json:"n"`               // inputs with >= 2 non-terminal tokens or an error after >= 1 token
+	N    int     `json:"n"`              // inputs with >= 2 non-terminal tokens or an error after >= 1 token
 }
 
 func lexAll(in string, capacity int) []tok {
